@@ -180,6 +180,34 @@ fn gen_colliding(r: &mut Rng, a: u64) -> u64 {
     [a, a + 1, 63][r.below(3) as usize] + 64 * r.below(40)
 }
 
+// ---- watchdog: an operation of the real map (or a lookup of the spec oracle) that does not return ----
+// C19 is about termination: the monitor thread writes `timeout step=<op> ms=<limit> history=[...]` to <out>/oracle.txt
+// and exits the process with code 3 (a hanging probe loop cannot be interrupted); checks/c19.py turns it into a failure.
+static STEP_WATCH: std::sync::Mutex<Option<(std::time::Instant, String)>> = std::sync::Mutex::new(None);
+
+pub fn start_watchdog(oracle_path: String, ms: u64) {
+    std::thread::spawn(move || loop {
+        std::thread::sleep(std::time::Duration::from_millis(100));
+        let w = STEP_WATCH.lock().unwrap();
+        if let Some((t, desc)) = w.as_ref() {
+            if t.elapsed() > std::time::Duration::from_millis(ms) {
+                use std::io::Write;
+                if let Ok(mut f) = std::fs::File::create(&oracle_path) {
+                    let _ = writeln!(f, "timeout ms={} {}", ms, desc);
+                    let _ = f.flush();
+                }
+                std::process::exit(3);
+            }
+        }
+    });
+}
+
+fn watch_begin(line: &str, log: &[String]) {
+    *STEP_WATCH.lock().unwrap() = Some((std::time::Instant::now(), format!("step=[{}] history=[{}]", line, log.join(" ;; "))));
+}
+
+fn watch_end() { *STEP_WATCH.lock().unwrap() = None; }
+
 pub fn run_history(rng: &mut Rng, steps: usize, o: &mut Out) {
     o.histories += 1;
     let mut m = VMultiMap::new().expect("map");
@@ -225,6 +253,7 @@ pub fn run_history(rng: &mut Rng, steps: usize, o: &mut Out) {
             _ => format!("values {:x}", k),
         };
         if pool.len() > 400 { pool.remove(0); }
+        watch_begin(&line, &log);
         let (res, mut bad) = exec_line(&mut m, &mut sh, &line);
         // a second key, untouched by the operation: still found / still absent
         if bad.is_none() && !res.starts_with("err") {
@@ -239,6 +268,7 @@ pub fn run_history(rng: &mut Rng, steps: usize, o: &mut Out) {
         o.imp.push(res);
         o.cases.push("dump".into());
         let d = dump(&m);
+        watch_end();
         if let Some(b) = bad {
             if !mismatch {
                 o.oracle.push(format!("map-spec-mismatch {} history=[{}]", b, log.join(" ;; ")));
